@@ -105,16 +105,9 @@ where
 
   fn close_internal(&self) {
     // Drop logic is now just the close logic.
-    // The drop impl will call this.
-    let pinned_map = self.dispatcher.subscriptions.pin();
-    for (_topic, list_arc) in pinned_map.iter() {
-      let subscribers_snapshot = list_arc.reader.enter();
-      for mailbox_weak in subscribers_snapshot.iter() {
-        if let Some(mailbox_strong) = mailbox_weak.upgrade() {
-          mailbox_strong.disconnect();
-        }
-      }
-    }
+    // The drop impl will call this. Only the last open sender handle
+    // disconnects the receivers - all of them, subscribed or not.
+    self.dispatcher.release_sender();
   }
 
   /// Converts this synchronous `TopicSender` into an `AsyncTopicSender`.
@@ -135,6 +128,7 @@ where
   T: Send + Clone + 'static,
 {
   fn clone(&self) -> Self {
+    self.dispatcher.add_sender();
     Self {
       dispatcher: self.dispatcher.clone(),
       closed: AtomicBool::new(false),
@@ -376,6 +370,7 @@ where
       for topic in topics_to_subscribe {
         new_receiver.subscribe(topic);
       }
+      dispatcher.register_mailbox(&new_receiver.producer_mailbox);
 
       new_receiver
     } else {
